@@ -109,7 +109,15 @@ def sc_vario(layout, opt):
         kw.update(direction=d, angles_tol=0.6)
     if opt.get("sampling"):
         kw.update(sampling_size=4, sampling_seed=3)
-    return roles, (lambda: gs.vario_estimate(pos, fld, bins, return_counts=True, **kw))
+    fld_arg = fld
+    if opt.get("fmask"):
+        # the field as a masked array (own mask at another point than the explicit mask); data and mask are
+        # the caller's arrays
+        fmk = np.zeros(np.shape(fld), dtype=bool)
+        fmk[..., 3] = True
+        roles["field_mask"] = fmk
+        fld_arg = np.ma.array(fld, mask=fmk, copy=False)
+    return roles, (lambda: gs.vario_estimate(pos, fld_arg, bins, return_counts=True, **kw))
 
 
 def sc_vario_struct(layout, opt):
@@ -433,7 +441,7 @@ def arg_cases(tier):
                 cases.append({"entry": entry, "layout": layout, "opt": opt})
 
     mnt = dict(mean=["none", "const", "call"], trend=["none", "call"], norm=["none", "yj"])
-    add("vario_estimate", latlon=[False], nfields=[1, 2], mask=[False, True], no_data=[False, True], direction=[False, True], sampling=[False, True], **mnt)
+    add("vario_estimate", latlon=[False], nfields=[1, 2], mask=[False, True], fmask=[False, True], no_data=[False, True], direction=[False, True], sampling=[False, True], **mnt)
     add("vario_estimate", latlon=[True], geo_scale=[1.0, "km", "deg", 17.3], nfields=[1, 2], mask=[False, True], mean=["none", "call"], trend=["none", "call"], norm=["none"])
     add("vario_estimate_structured", **mnt)
     add("vario_estimate_axis", kind=["nd", "masked"], nan=[False, True], no_data=[False, True], axis=["x", "y"], est=["matheron", "cressie"])
